@@ -1,4 +1,5 @@
 //! Deterministic environments: task driver, scripted byte carriers.
+pub mod alloc;
 pub mod driver;
 pub mod pipe;
 pub mod node;
